@@ -83,10 +83,17 @@ pub fn generate(
                     }
                     CustomType::Yes(_) => {
                         // Once signed bitenum or bitfield-base-data-types are a thing, we'll need to pay special attention to sign extension here
+                        // The raw value is bound to the exact type of the field's width: a write-only field has
+                        // no getter that would otherwise reject a custom type of a different width
                         if field_definition.use_regular_int {
-                            quote! { field_value.raw_value() }
+                            let primitive_type = &field_definition.primitive_type;
+                            quote! { { let raw: #primitive_type = field_value.raw_value(); raw } }
                         } else {
-                            quote! { field_value.raw_value().value() }
+                            let custom_type = TokenStream2::from_str(
+                                format!("arbitrary_int::u{}", total_number_bits).as_str(),
+                            )
+                            .unwrap();
+                            quote! { { let raw: #custom_type = field_value.raw_value(); raw.value() } }
                         }
                     }
                 };
